@@ -777,6 +777,11 @@ pub fn alphabet(kind: &str, big: bool) -> (Vec<Op>, Pools) {
                 }
                 v.push(Op::Msg { g, id: 0, created: 0, processed: 0, epoch: None, state: 1, tag: 1 });
                 v.push(Op::Msg { g, id: 1, created: 1, processed: 0, epoch: Some(2), state: 0, tag: 2 });
+                // messages in other states than Processed that carry an epoch: an own unconfirmed one, a deleted one
+                v.push(Op::Msg { g, id: 2, created: 0, processed: 0, epoch: Some(2), state: 1, tag: 0 });
+                if big || g == 0 {
+                    v.push(Op::Msg { g, id: 0, created: 0, processed: 0, epoch: Some(1), state: 2, tag: 0 });
+                }
                 v.push(Op::InvMsgs { g, epoch: 0 });
                 v.push(Op::InvMsgs { g, epoch: 1 });
                 for id in 0..3 {
